@@ -6,8 +6,11 @@ import (
 	"errors"
 	"fmt"
 	"math"
+	"path/filepath"
 	"strconv"
 	"strings"
+	"sync"
+	"syscall"
 	"testing"
 	"time"
 
@@ -144,6 +147,8 @@ var oddArrays = []resp.Value{
 }
 
 // genOffenderItem generates one frame an offending client sends.
+var fifoOnce sync.Once
+
 func genOffenderItem(t *sim.Tape, g *wl.Gen, ns string, i int, o *Outcome) ([]byte, string) {
 	switch k := t.Draw(11, "offkind"); {
 	case k == 10:
@@ -169,6 +174,18 @@ func genOffenderItem(t *sim.Tape, g *wl.Gen, ns string, i int, o *Outcome) ([]by
 		o.stat("complexity_attacks", 1)
 		return append(resp.Cmd("SET", key, "v"), resp.Cmd(a...)...), fmt.Sprintf("SET %s..; %q", key[:len(ns)+4], a)
 	case k < 6:
+		if t.Draw(32, "cfgpath") == 31 {
+			// a configuration key that names a file, set by a client to a path whose open or read does not come
+			// back (a FIFO nobody writes to), to a directory, to nothing: the value is a string like any other
+			cf, _, _ := pemFiles()
+			dir := filepath.Dir(cf)
+			fifo := filepath.Join(dir, "fifo")
+			fifoOnce.Do(func() { syscall.Mkfifo(fifo, 0o600) })
+			key := []string{"tls-cert-file", "tls-key-file", "tls-ca-cert-file"}[t.Draw(3, "cfgpathkey")]
+			path := []string{fifo, dir, filepath.Join(dir, "missing.pem"), "/dev/null"}[t.Draw(4, "cfgpathval")]
+			o.stat("file_configuration_keys_set_to_special_paths", 1)
+			return resp.Cmd("CONFIG", "SET", key, path), fmt.Sprintf("CONFIG SET %s <%s>", key, filepath.Base(path))
+		}
 		if t.Draw(16, "othercmd") == 15 {
 			// a command of the Redis command set that this framework does not implement (today: an error reply),
 			// with sizes, offsets and counts from small to far beyond memory
@@ -457,7 +474,7 @@ func init() {
 	register(&Check{
 		ID: "C07", Bubble: true, Run: runC07,
 		Runs:   map[string]int{"quick": 20000, "thorough": 600000},
-		Rule:   "a case is one run of the full server (Start, accept loop, connection goroutines) with 1..3 offender connections (in a quarter of the runs the application supplies a TLS configuration that does not require client certificates and offenders may use the TLS port with or without one; boundary-argument commands on a small key pool, commands of the Redis command set outside the implemented ones with sizes up to far beyond memory, ill-formed and unknown commands, odd/null/nested arrays, malformed frames, many-wildcard patterns against a long almost-matching key; ended by idle/half-close/close/reset at a drawn byte), one lock-step witness with exact expected replies and one late-comer, under a seeded interleaving of all deliveries and server goroutines; in half of the runs with inserted scheduling points an application goroutine registers an executor while clients are served; handler = bundled example store, reference store, or a non-panicking but misbehaving store (nil results, errors, oddly typed replies for the offenders' keys); distinct = distinct event-log hashes; every run has an offender, so all are non-trivial",
+		Rule:   "a case is one run of the full server (Start, accept loop, connection goroutines) with 1..3 offender connections (in a quarter of the runs the application supplies a TLS configuration that does not require client certificates and offenders may use the TLS port with or without one; boundary-argument commands on a small key pool, commands of the Redis command set outside the implemented ones with sizes up to far beyond memory, CONFIG SET of the file-naming keys to a FIFO / a directory / a missing file, ill-formed and unknown commands, odd/null/nested arrays, malformed frames, many-wildcard patterns against a long almost-matching key; ended by idle/half-close/close/reset at a drawn byte), one lock-step witness with exact expected replies and one late-comer, under a seeded interleaving of all deliveries and server goroutines; in half of the runs with inserted scheduling points an application goroutine registers an executor while clients are served; handler = bundled example store, reference store, or a non-panicking but misbehaving store (nil results, errors, oddly typed replies for the offenders' keys); distinct = distinct event-log hashes; every run has an offender, so all are non-trivial",
 		Real:   []string{"redis.Server Start/accept loop/connection goroutines/dispatch/executors/parser", "examples/go-redisd/server store (half of the runs)"},
 		Stub:   []string{"network: simulated listener and connections", "handler (other half): reference store", "process isolation: one worker process per shard, a worker death is attributed to its run and replayed alone"},
 		Assume: []string{"the witness uses its own keys and database so that its expected replies do not depend on the offenders"},
